@@ -18,7 +18,7 @@ Theorem C11_signature_copied : forall cfg c p name ln args body decs es,
     rmap (tr (c_nsp c)) (rev decs) = inl decs' /\
     let lam := Lambda (a_posonly args) (a_args args) (a_vararg args) (a_kwonly args) kwdefaults' (a_kwarg args) defaults' lbody in
     let decorated := decorate decs' lam in
-    let final := if n_is_method fn && String.eqb name "__init_subclass__" then call (Name "classmethod") [decorated] else decorated in
+    let final := hook_wrap p (n_is_method fn) name decs decorated in
     get_assign (c_nsp c) name final = inl e /\ es = [e].
 Proof. exact funcdef_shape. Qed.
 Print Assumptions C11_signature_copied.
